@@ -14,17 +14,17 @@ an instrument built directly in the final configuration.
 namespace Cherab.Props.C16
 open Cherab.Instruments Cherab.Gen.InstrumentEdges
 
-theorem wf_spectrometer : wfB spectrometer = true := by decide
-theorem wf_ct : wfB czernyTurnerSpectrometer = true := by decide
-theorem wf_polychromator : wfB polychromator = true := by decide
+theorem wf_spectrometer : wfB spectrometer = true := by decide +kernel
+theorem wf_ct : wfB czernyTurnerSpectrometer = true := by decide +kernel
+theorem wf_polychromator : wfB polychromator = true := by decide +kernel
 
-theorem covered_spectrometer : Inval.Covered (protoOf spectrometer) := covered_of_check _ (by decide)
-theorem covered_ct : Inval.Covered (protoOf czernyTurnerSpectrometer) := covered_of_check _ (by decide)
-theorem covered_polychromator : Inval.Covered (protoOf polychromator) := covered_of_check _ (by decide)
+theorem covered_spectrometer : Inval.Covered (protoOf spectrometer) := covered_of_check _ (by decide +kernel)
+theorem covered_ct : Inval.Covered (protoOf czernyTurnerSpectrometer) := covered_of_check _ (by decide +kernel)
+theorem covered_polychromator : Inval.Covered (protoOf polychromator) := covered_of_check _ (by decide +kernel)
 
 /-- every concrete instrument class the translator found (a class added later is included automatically) -/
 theorem covered_all : ∀ t ∈ allTables, wfB t = true ∧ Inval.Covered (protoOf t) := by
-  have h : ∀ t ∈ allTables, wfB t = true ∧ coveredB t = true := by decide
+  have h : ∀ t ∈ allTables, wfB t = true ∧ coveredB t = true := by decide +kernel
   exact fun t ht => ⟨(h t ht).1, covered_of_check t (h t ht).2⟩
 
 theorem spectrometer_settings_follow (ops : List (Inval.Op Nat Nat)) (c : Nat) :
@@ -47,6 +47,6 @@ theorem polychromator_settings_follow (ops : List (Inval.Op Nat Nat)) (c : Nat) 
 
 /-- non-vacuity: the derived settings really depend on setters (the `deps` lists are not empty) -/
 example : (allTables.all fun t => (List.range t.attrs.length).any fun c => decide (2 ≤ (depsOf t c).length)) = true := by
-  decide
+  decide +kernel
 
 end Cherab.Props.C16
